@@ -123,6 +123,19 @@ func (s *simReader) Read(p []byte) (int, error) {
 			return 0, nil
 		}
 		n = 1 + s.r.N(24)
+	case 10, 11: // a hesitant source: a (0, nil) read before every small piece of data, hundreds in all
+		if s.zeros < 600 && s.calls%2 == 1 {
+			s.zeros++
+			s.stats["zero_length_read"]++
+			if s.zeros == 100 {
+				s.stats["hundred_zero_length_reads_in_one_stream"]++
+			}
+			return 0, nil
+		}
+		n = 1
+		if s.pol == 11 {
+			n = 7
+		}
 	case 6: // exactly the header, then the rest
 		if !s.first {
 			n = 16
@@ -222,8 +235,8 @@ func gen(r *sim.Rng, tier string) *sim.Case {
 	p["variant"] = r.N(8) // bit0: plaintext as string, bit1: secret as string, bit2: aad as string
 	p["emode"] = r.Pick(6, 1, 1)
 	p["echunk"] = []int{0, 0, 1, 3, 7}[r.N(5)]
-	p["rpol"] = r.N(10)
-	p["rpol2"] = r.N(10)
+	p["rpol"] = r.N(12)
+	p["rpol2"] = r.N(12)
 	p["rfail"] = -1
 	p["wfail"] = -1
 	switch p["scen"] {
